@@ -12,10 +12,10 @@ import (
 // reported as KNOWN-FINDING and do not fail a check; "fixed" entries suppress nothing.
 type KnownFinding struct {
 	Property string `json:"property"`
-	Status   string `json:"status"`          // "open" | "fixed"
-	Class    string `json:"class"`           // exact violation class, or prefix when it ends in '*'
-	Contains string `json:"contains"`        // optional: substring that must occur in the message
-	What     string `json:"what"`            // human description of what fails
+	Status   string `json:"status"`           // "open" | "fixed"
+	Class    string `json:"class"`            // exact violation class, or prefix when it ends in '*'
+	Contains string `json:"contains"`         // optional: substring that must occur in the message
+	What     string `json:"what"`             // human description of what fails
 	Commit   string `json:"commit,omitempty"` // for fixed entries
 	Line     string `json:"line,omitempty"`   // the "fixed: property=<id> <commit> <what failed>" line
 }
